@@ -225,7 +225,7 @@ def tree_dump(m):
     return [(p, type(x).__name__, id(x) if isinstance(x, M.RawTokenModel) else None) for p, x in docenv.walk(m)]
 
 
-def make_rep(scaf_name, n, op, facet, step=None, attached=False, twin=False, pre=None):
+def make_rep(scaf_name, n, op, facet, step=None, attached=False, twin=False, pre=None, lf=None):
     sc = SCAFFOLDS[scaf_name]
     off = FILE_OFFSET.get(scaf_name, 0)
     n_tot = n + 2 * off
@@ -233,9 +233,14 @@ def make_rep(scaf_name, n, op, facet, step=None, attached=False, twin=False, pre
     nd = len(sc.donors)
     fixed_k = NEEDS_DONORS.get(op)
     max_k = fixed_k if fixed_k is not None else (3 if op in ('setslice', 'extend', 'setslice_ext') else 0)
+    if lf is not None and fixed_k is None:
+        max_k = min(max_k, 1)
 
-    def cell(i: int, j: int, k: int, d0: int, d1: int, d2: int, bad: int, pi: int = 0, pd: int = 0) -> None:
-        assert -n_tot - 3 <= i <= n_tot + 3 and -n_tot - 3 <= j <= n_tot + 3
+    blo, bhi = docenv.block_bounds(lf) if lf else (0, 0)
+
+    def cell(i: int, j: int, k: int, d0: int, d1: int, d2: int, bad: int, pi: int = 0, pd: int = 0, bp: int = 0, bs: int = 0) -> None:
+        assert (-n_tot - 3 <= i <= n_tot + 3 and -n_tot - 3 <= j <= n_tot + 3) if lf is None else (0 <= i <= n_tot and i <= j <= n_tot)
+        assert (bp == 0 and bs == 0) if lf is None else (0 <= bp < len(docenv.BLOCK_PATTERNS) and 0 <= bs <= bhi - blo)
         assert (-n_tot - 3 <= pi <= n_tot + 3 and 0 <= pd < nd) if pre is not None else (pi == 0 and pd == 0)
         assert (k == fixed_k) if fixed_k is not None else (0 <= k <= max_k)
         assert 0 <= d0 < nd and 0 <= d1 < nd and 0 <= d2 < nd
@@ -243,6 +248,12 @@ def make_rep(scaf_name, n, op, facet, step=None, attached=False, twin=False, pre
         with NoTracing():
             set_load_factor(3 if n >= 2 else 1000)   # n >= 2: the ~60-token document spans ~20 store blocks, edits cross block boundaries
             f = docenv.PARSER.parse(text, M.File)
+        if lf is not None:    # block-layout cells: the store is re-partitioned into a symbolically chosen legal layout
+            bp, bs = pick(bp, 0, len(docenv.BLOCK_PATTERNS) - 1), pick(bs, 0, bhi - blo)
+            i, j = pick(i, 0, n_tot), pick(j, 0, n_tot)
+            with NoTracing():
+                docenv.reblock(f.token_store, lf, bp, bs)
+        with NoTracing():
             parent = sc.get_parent(f)
             raw = getattr(parent, sc.raw_attr)
             views = [(name, getattr(parent, name), pred, conv) for name, pred, conv in sc.views]
@@ -287,7 +298,11 @@ def make_rep(scaf_name, n, op, facet, step=None, attached=False, twin=False, pre
         got_exc = None
         ret = None
         try:
-            ret = apply_real(op, raw, si, sj, donors, step)
+            if lf is not None:      # every argument is concrete here: native speed
+                with NoTracing():
+                    ret = apply_real(op, raw, si, sj, donors, step)
+            else:
+                ret = apply_real(op, raw, si, sj, donors, step)
         except REFUSALS as e:
             got_exc = type(e)
         i = pick(i, -n_tot - 3, n_tot + 3) if op in USES_I else 0
@@ -376,8 +391,9 @@ def make_rep(scaf_name, n, op, facet, step=None, attached=False, twin=False, pre
             else:
                 raise AssertionError(facet)
 
-    name = 'rep_%s_%s%d_%s%s%s%s%s' % (facet, scaf_name, n, op, ('_s%s' % step).replace('-', 'm') if step is not None else '',
-                                        ('_attached_' + attached) if attached else '', ('_after_' + pre) if pre else '', '_twin' if twin else '')
+    name = 'rep_%s_%s%d_%s%s%s%s%s%s' % (facet, scaf_name, n, op, ('_s%s' % step).replace('-', 'm') if step is not None else '',
+                                          ('_attached_' + attached) if attached else '', ('_after_' + pre) if pre else '',
+                                          ('_lf%d' % lf) if lf else '', '_twin' if twin else '')
     return name, cell
 
 
@@ -447,6 +463,18 @@ for _facet, _prop in FACET_PROP.items():
                 quick = _scaf in QUICK_SCAF[_facet][:2] and (_pre, _op) in (('insert', 'pop'), ('pop', 'insert'), ('setslice', 'setitem'), ('extend', 'delitem'))
                 _reg(make_rep(_scaf, 2, _op, _facet, pre=_pre), {_prop: Q if quick else T}, 900, 'rep2/' + _facet,
                      '%s with 2 items: raw %s at a symbolic index, then %s' % (_scaf, _pre, _bounds(_scaf, 2, _op)), cost=600)
+# block layouts: the same operations on stores re-partitioned into symbolically chosen legal block layouts (load factors 2, 4, 5)
+BLK_QUICK = {('note_tags', 'delslice'), ('file_dirs', 'delslice'), ('txn_postings', 'setslice'), ('note_tags', 'setslice')}
+for _facet, _prop in FACET_PROP.items():
+    if _facet == 'refuse':
+        continue
+    for _scaf in ('note_tags', 'file_dirs', 'txn_postings', 'txn_meta', 'open_cur'):
+        for _op in ('delslice', 'setslice', 'insert', 'pop', 'setitem'):
+            for _lf in (2, 4, 5):
+                quick = (_scaf, _op) in BLK_QUICK and _lf in (2, 4) and _facet != 'views'
+                _reg(make_rep(_scaf, 4, _op, _facet, lf=_lf), {_prop: Q if quick else T}, 900, 'blk/' + _facet,
+                     '%s with 4 items, %s with in-range symbolic bounds (<= 1 donor) on a store re-partitioned for load factor %d: symbolic block pattern '
+                     '(8 cycles over smallest / nominal / largest legal size) and symbolic size of the first block' % (_scaf, _op, _lf), cost=500)
 for _facet, _prop in FACET_PROP.items():
     _reg(make_rep('note_tags', 2, 'setslice', _facet, twin=True), {_prop: Q}, 120, 'rep/' + _facet, 'vacuity twin', twin=True, cost=1)
 
@@ -460,6 +488,7 @@ ENCODES = ['autobean_refactor/models/internal/properties.py: RepeatedNodeWrapper
     'autobean_refactor/models/internal/indexes.py: range_from_index, slice_from_range',
     'autobean_refactor/models/base.py: RawModel.detach, RawTreeModel.reattach', 'autobean_refactor/token_store.py: splice/insert/remove']
 STUBS = ['TokenStore load factor set to 3 for scaffolds with >= 2 items (module globals, read at call time): documents span many blocks',
+         'blk cells: the parsed store is re-partitioned (docenv.reblock) into a legal block layout chosen by symbolic selectors; every such layout is reachable through the public API',
          'scaffold documents and donor nodes are built by the real parser/constructors untraced (concrete); the operation under test runs traced '
          'with symbolic index, bounds, donor count and donor kinds',
          'C06 re-parse of the printed text runs untraced on the realised text of each path']
